@@ -189,20 +189,21 @@ impl Scene for S {
         let ticks1: Vec<u64> = an.enters.iter().filter(|e| matches!(e.cb, Cb::Tick { timer: 1, reg_inc: 0 })).map(|e| e.time).collect();
         let d: Vec<u64> = an.enters.iter().filter(|e| matches!(e.cb, Cb::Tick { timer: 2, reg_inc: 0 })).map(|e| e.time).collect();
         if self.time_races {
-            // one-sided: the timers fired (the interval at least twice, the one-shot exactly
-            // once), none before it was due
-            if ticks1.len() < 2 || ticks1.iter().enumerate().any(|(k, t)| *t < 2 * (k as u64 + 1)) {
+            // one-sided: with deadlines firing while tasks are runnable, a woken timer task may
+            // not get to run before the actor stops itself - what remains is "never early, the
+            // one-shot at most once" (the exact runs of the same cases require the presence)
+            if ticks1.iter().enumerate().any(|(k, t)| *t < 2 * (k as u64 + 1)) {
                 out.push(Violation {
                     clause: "timers-keep-firing",
                     key: format!("C15/only-strong={sub}/interval"),
-                    detail: format!("interval(period 2) ticks were handled at {ticks1:?}; expected at least two, the k-th not before t=2k"),
+                    detail: format!("interval(period 2) ticks were handled at {ticks1:?}; the k-th must not come before t=2k"),
                 });
             }
-            if d.len() != 1 || d[0] < 3 {
+            if d.len() > 1 || d.iter().any(|t| *t < 3) {
                 out.push(Violation {
                     clause: "timers-keep-firing",
                     key: format!("C15/only-strong={sub}/delayed_send"),
-                    detail: format!("delayed_send(3) was handled at {d:?}; expected exactly once, not before t=3"),
+                    detail: format!("delayed_send(3) was handled at {d:?}; expected at most once, not before t=3"),
                 });
             }
         } else {
@@ -221,7 +222,7 @@ impl Scene for S {
                 });
             }
         }
-        for r in 1..=self.with_restart as u16 {
+        for r in 1..=(if self.time_races { 0 } else { self.with_restart as u16 }) {
             let t1: Vec<u64> = an.enters.iter().filter(|e| matches!(e.cb, Cb::Tick { timer: 1, reg_inc } if reg_inc == r)).map(|e| e.time).collect();
             if t1.len() < 2 {
                 out.push(Violation {
@@ -276,6 +277,117 @@ impl Scene for S {
     }
 }
 
+/// One tick handler outlasts a carry-on handler timeout and is abandoned; the interval, the
+/// handles and the actor go on as if nothing had happened.
+struct AbandonedTick {
+    /// the only strong handle kept: 0 Addr, 1 OwningAddr, 2 Sender, 3 Caller
+    kind: usize,
+    mailbox: Mailbox,
+    /// which tick is the slow one (1-based)
+    nth: u32,
+    with_interval_with: bool,
+}
+
+impl Scene for AbandonedTick {
+    fn roles(&self) -> Vec<RoleCfg> {
+        let mut r = RoleCfg::default();
+        r.started_actions = vec![if self.with_interval_with { Action::IntervalWith { timer: 1, period: 2 } } else { Action::Interval { timer: 1, period: 2 } }];
+        r.slow_tick = Some((self.nth, crate::world::Work { sleep: 5, ..Default::default() }));
+        vec![r]
+    }
+
+    fn setup(&self, exec: &Exec) {
+        let cfg = SpawnCfg { mailbox: self.mailbox, strat: crate::scenes::Strat::Default, timeout: Some((2, false)) };
+        let owning = spawn_probe(0, cfg);
+        let base = owning.to_addr();
+        let mut h = Handles::default();
+        h.waddr.push(Some(base.downgrade()));
+        let mut owning = Some(owning);
+        let held = match self.kind {
+            0 => {
+                h.addr.push(Some(base.clone()));
+                H::Addr(0)
+            }
+            1 => {
+                h.own.push(owning.take());
+                H::Own(0)
+            }
+            2 => {
+                h.snd.push(Some(base.sender::<Note>()));
+                H::Snd(0)
+            }
+            _ => {
+                h.cal.push(Some(base.caller::<Ask>()));
+                H::Cal(0)
+            }
+        };
+        if let Some(o) = owning.take() {
+            drop(o.detach());
+        }
+        drop(base);
+        exec.spawn_client(0, run_client(0, h, vec![Op::Sleep(17), Op::UpgradeProbe(H::WAddr(0)), Op::Drop(held)]));
+    }
+
+    fn check(&self, t: &Trace) -> Vec<Violation> {
+        let an = An::new(t.log);
+        let mut out = vec![];
+        let kind = ["Addr", "OwningAddr", "Sender", "Caller"][self.kind];
+        let ticks: Vec<u64> = an.enters.iter().filter(|e| matches!(e.cb, Cb::Tick { timer: 1, .. })).map(|e| e.time).collect();
+        // the slow tick starts at 2*nth and is abandoned two ticks later; until the client lets
+        // go at t=17 the ticks due at 2, 4, .., 16 are all handled (the ones that came due
+        // during the slow one right after it)
+        let abandoned_at = 2 * self.nth as u64 + 2;
+        let after = ticks.iter().filter(|t| **t >= abandoned_at && **t <= 16).count();
+        let due_after = (abandoned_at..=16).filter(|t| t % 2 == 0).count();
+        crate::check::oblige("timers-keep-firing");
+        if ticks.len() < 8 || after < due_after {
+            out.push(Violation {
+                clause: "timers-keep-firing",
+                key: format!("C15/only-strong={kind}/interval-dead-after-abandoned-tick"),
+                detail: format!("tick #{} outlasted the (carry-on) handler timeout; ticks were handled at {ticks:?}, expected all of t=2,4,..,16 ({due_after} of them from t={abandoned_at} on)", self.nth),
+            });
+        }
+        for o in &an.ops {
+            if o.c == 0 && o.i == 1 && matches!(o.res, Some(Res::None)) {
+                out.push(Violation {
+                    clause: "weak-upgrades-succeed",
+                    key: format!("C15/only-strong={kind}/client-upgrade"),
+                    detail: format!("a weak address did not upgrade although {kind} was alive"),
+                });
+            }
+        }
+        if an.task_end(0).is_none() {
+            out.push(Violation {
+                clause: "self-stop-works",
+                key: format!("C15/only-strong={kind}/not-terminated-after-last-drop"),
+                detail: "the actor did not terminate after the last strong handle was dropped".into(),
+            });
+        }
+        out
+    }
+}
+
+fn abandoned_tick_cases(tier: Tier) -> Vec<Case> {
+    let mut v = vec![];
+    let mbs: &[Mailbox] = if tier == Tier::Quick { &[Mailbox::U, Mailbox::B(1)] } else { &[Mailbox::U, Mailbox::B(0), Mailbox::B(1), Mailbox::B(2)] };
+    for kind in 0..4 {
+        for &mailbox in mbs {
+            for nth in [1u32, 2, 3] {
+                for with_interval_with in [false, true] {
+                    v.push(Case {
+                        desc: format!("strong-kinds [tick #{nth} abandoned by a carry-on timeout] only={} mailbox={} interval_with={with_interval_with}", ["Addr", "OwningAddr", "Sender", "Caller"][kind], mailbox.name()),
+                        // the slow tick takes 5 > 2: the timeout's select! never has both arms ready
+                        exec: ExecCfg { horizon: 30, select_choice: false, ..ExecCfg::default() },
+                        bound: None,
+                        scene: Box::new(AbandonedTick { kind, mailbox, nth, with_interval_with }),
+                    });
+                }
+            }
+        }
+    }
+    v
+}
+
 fn base_cases(tier: Tier) -> Vec<Case> {
     let mut v = vec![];
     let mbs: &[Mailbox] = if tier == Tier::Quick { &[Mailbox::U, Mailbox::B(1)] } else { &[Mailbox::U, Mailbox::B(0), Mailbox::B(1), Mailbox::B(2)] };
@@ -293,10 +405,19 @@ fn base_cases(tier: Tier) -> Vec<Case> {
                     }
                     v.push(Case {
                         desc: format!("strong-kinds subset={} path={:?} mailbox={} restart={} burst={}", subset_name(&subset), path, mailbox.name(), with_restart, burst),
-                        exec: ExecCfg { horizon: 30, max_early_fires: if tier == Tier::Thorough { 1 } else { 0 }, ..ExecCfg::default() },
+                        exec: ExecCfg { horizon: 30, ..ExecCfg::default() },
                         bound: None,
-                        scene: Box::new(S { subset, path, mailbox, with_restart, burst, time_races: tier == Tier::Thorough }),
+                        scene: Box::new(S { subset, path, mailbox, with_restart, burst, time_races: false }),
                     });
+                    // thorough: once more with timer deadlines racing runnable tasks
+                    if tier == Tier::Thorough && with_restart <= 1 && !burst {
+                        v.push(Case {
+                            desc: format!("strong-kinds [time races] subset={} path={:?} mailbox={} restart={} burst={}", subset_name(&subset), path, mailbox.name(), with_restart, burst),
+                            exec: ExecCfg { horizon: 30, max_early_fires: 1, ..ExecCfg::default() },
+                            bound: None,
+                            scene: Box::new(S { subset, path, mailbox, with_restart, burst, time_races: true }),
+                        });
+                    }
                 }
             }
         }
@@ -309,7 +430,9 @@ fn cases(tier: Tier) -> Vec<Case> {
     // bounded mailbox that never fills, recreate-from-default, and (without restarts, which a
     // stream-attached actor cannot express) the stream loop
     let no_restart = |d: &str| d.contains("restart=0");
-    crate::check::widen(&|| base_cases(tier), &|_| true, &|_| true, Some(&no_restart))
+    let mut v = crate::check::widen(&|| base_cases(tier), &|_| true, &|_| true, Some(&no_restart));
+    v.extend(abandoned_tick_cases(tier));
+    v
 }
 
 pub fn property() -> Property {
